@@ -78,11 +78,19 @@ func (e *Engine) verifyContract(ct *Contract) (rep *FuncReport) {
 	}
 	if ct.CasesExpr != "" {
 		// one run per value of the case expression; the first run also proves that the cases cover the precondition
-		for k := ct.CasesLo; k <= ct.CasesHi; k++ {
+		hi := ct.CasesHi
+		if ct.CasesElse {
+			hi++ // one more run: the expression is outside lo..hi
+		}
+		for k := ct.CasesLo; k <= hi; k++ {
 			ct2 := *ct
 			ct2.CasesExpr = ""
 			ct2.caseNote = fmt.Sprintf("@%s=%d", strings.ReplaceAll(ct.CasesExpr, " ", ""), k)
 			txt := fmt.Sprintf("%s == %d", ct.CasesExpr, k)
+			if k > ct.CasesHi {
+				ct2.caseNote = fmt.Sprintf("@%s=else", strings.ReplaceAll(ct.CasesExpr, " ", ""))
+				txt = fmt.Sprintf("%s < %d || %s > %d", ct.CasesExpr, ct.CasesLo, ct.CasesExpr, ct.CasesHi)
+			}
 			ex, err := parseSpec(txt)
 			if err != nil {
 				rep.Status = "stale-contract"
@@ -90,7 +98,7 @@ func (e *Engine) verifyContract(ct *Contract) (rep *FuncReport) {
 				return rep
 			}
 			ct2.Requires = append(append([]Clause{}, ct.Requires...), Clause{Text: txt, E: ex, Line: ct.Pos})
-			if k == ct.CasesLo {
+			if k == ct.CasesLo && !ct.CasesElse {
 				ctxt := fmt.Sprintf("%d <= %s && %s <= %d", ct.CasesLo, ct.CasesExpr, ct.CasesExpr, ct.CasesHi)
 				cex, _ := parseSpec(ctxt)
 				ct2.caseCover = &Clause{Text: ctxt, E: cex, Line: ct.Pos}
@@ -807,19 +815,42 @@ func (e *Engine) smtText(o *Oblig, extra string, splitCase string) string {
 		used[k] = true
 	}
 	closure := e.specClosure(used)
+	var closureText strings.Builder
 	for _, sf := range closure {
 		if strings.Contains(sf.decl, "Str") {
 			usesStr = true
 		}
+		closureText.WriteString(sf.decl)
+		closureText.WriteString(strings.Join(sf.axioms, " "))
 	}
+	body += closureText.String() // for the "does the query mention X" tests below
 	if usesStr {
 		b.WriteString("(declare-sort Str 0)\n(declare-fun slen (Str) Int)\n(declare-fun sat (Str Int) Int)\n(declare-const str!empty Str)\n")
 		b.WriteString("(assert (= (slen str!empty) 0))\n")
 		b.WriteString("(assert (forall ((s Str)) (! (and (>= (slen s) 0) (<= (slen s) 72057594037927936)) :pattern ((slen s)))))\n")
 		b.WriteString("(assert (forall ((s Str) (i Int)) (! (and (<= 0 (sat s i)) (<= (sat s i) 255)) :pattern ((sat s i)))))\n")
 		b.WriteString("(declare-fun str!cat (Str Str) Str)\n(declare-fun str!sub (Str Int Int) Str)\n")
+		if c.used["str!sub"] || strings.Contains(body, "str!sub") {
+			b.WriteString("(assert (forall ((s Str) (lo Int) (hi Int)) (! (=> (and (<= 0 lo) (<= lo hi) (<= hi (slen s))) (= (slen (str!sub s lo hi)) (- hi lo))) :pattern ((str!sub s lo hi)))))\n")
+			b.WriteString("(assert (forall ((s Str) (lo Int) (hi Int) (j Int)) (! (=> (and (<= 0 lo) (<= lo hi) (<= hi (slen s)) (<= 0 j) (< j (- hi lo))) (= (sat (str!sub s lo hi) j) (sat s (+ lo j)))) :pattern ((sat (str!sub s lo hi) j)))))\n")
+		}
 		if c.used["str!ext"] {
 			b.WriteString("(assert (forall ((s Str) (t Str)) (! (=> (and (= (slen s) (slen t)) (forall ((i Int)) (=> (and (<= 0 i) (< i (slen s))) (= (sat s i) (sat t i))))) (= s t)) :pattern ((slen s) (slen t)))))\n")
+		}
+	}
+	if c.used["dyn!"] || strings.Contains(body, "dyn!") || strings.Contains(body, "box!") || strings.Contains(body, "Dyn") {
+		// interface values: an uninterpreted sort with injective constructors per payload sort and projections
+		// (an Int-valued encoding would be inconsistent: there is no injection from reals or arrays into the integers)
+		b.WriteString("(declare-sort Dyn 0)\n(declare-const dyn!nil Dyn)\n")
+		b.WriteString("(declare-fun dyn!ty (Dyn) Int)\n(declare-fun dyn!i (Dyn) Int)\n(declare-fun dyn!r (Dyn) Real)\n(declare-fun dyn!ba (Dyn) (Array Int Int))\n(declare-fun dyn!bl (Dyn) Int)\n")
+		b.WriteString("(declare-fun box!i (Int Int) Dyn)\n(declare-fun box!r (Int Real) Dyn)\n(declare-fun box!b (Int (Array Int Int) Int) Dyn)\n")
+		b.WriteString("(assert (forall ((c Int) (v Int)) (! (and (not (= (box!i c v) dyn!nil)) (= (dyn!ty (box!i c v)) c) (= (dyn!i (box!i c v)) v)) :pattern ((box!i c v)))))\n")
+		b.WriteString("(assert (forall ((c Int) (v Real)) (! (and (not (= (box!r c v) dyn!nil)) (= (dyn!ty (box!r c v)) c) (= (dyn!r (box!r c v)) v)) :pattern ((box!r c v)))))\n")
+		b.WriteString("(assert (forall ((c Int) (a (Array Int Int)) (n Int)) (! (=> (>= n 0) (and (not (= (box!b c a n) dyn!nil)) (= (dyn!ty (box!b c a n)) c) (= (dyn!ba (box!b c a n)) a) (= (dyn!bl (box!b c a n)) n))) :pattern ((box!b c a n)))))\n")
+		b.WriteString("(assert (forall ((t Dyn)) (! (>= (dyn!bl t) 0) :pattern ((dyn!bl t)))))\n")
+		if usesStr {
+			b.WriteString("(declare-fun dyn!s (Dyn) Str)\n(declare-fun box!s (Int Str) Dyn)\n")
+			b.WriteString("(assert (forall ((c Int) (v Str)) (! (and (not (= (box!s c v) dyn!nil)) (= (dyn!ty (box!s c v)) c) (= (dyn!s (box!s c v)) v)) :pattern ((box!s c v)))))\n")
 		}
 	}
 	for _, n := range []int{2, 3} {
